@@ -54,6 +54,23 @@ class SiteSpecHooks:
             st.ghost[key] = st.ghost.get(key, z3.IntVal(0)) + 1
         return NotImplemented
 
+    def getitem(self, eng, st, o, k, node):
+        """sites with func='[]' and container=<source text of the subscripted expression>: obligations on the index (__key)."""
+        import ast as _ast
+        for site in self.sites:
+            if site['func'] != '[]' or _ast.unparse(node.value).replace(' ', '') != site['container'].replace(' ', ''):
+                continue
+            t, facts = eng.spec(site['spec'], st, {'__key': k}, mode='prove')
+            s2 = st.fork()
+            for x in facts:
+                s2.assume(x)
+            eng.oblige(s2, 'site/%s@L%d' % (site['name'], node.lineno), t, kind='index-site')
+            key = 'n_site_' + site['name']
+            st.ghost[key] = st.ghost.get(key, z3.IntVal(0)) + 1
+        if self.inner is not None and hasattr(self.inner, 'getitem'):
+            return self.inner.getitem(eng, st, o, k, node)
+        return NotImplemented
+
     def on_branch(self, eng, st, cv, node, what='branch-condition'):
         """sites with func='if' and contains=<text occurring in the body>: the branch is taken exactly when the spec holds."""
         import ast as _ast
